@@ -13,7 +13,8 @@ MC_Nodes   == NodesOver(MC_Owners, {"A", "TXT", "MULTI"}, {"NS", "NSG", "NSD"}, 
 MC_NodeData == {Records(nd) : nd \in MC_Nodes}
 MC_QNames  == {Abs(w) : w \in MC_Owners \cup {<<>>, <<lc>>, <<lc, la>>, <<la, STAR>>, <<ln, la>>, <<lb, la, la>>}} \cup {OutName}
 \* quick tier: the same shapes over fewer names
-MCQ_Owners  == {<<la>>, <<STAR>>, <<la, la>>, <<STAR, la>>}
+\* incl. an owner three labels below the apex: alone in a zone its two ancestors are stacked empty non-terminals
+MCQ_Owners  == {<<la>>, <<STAR>>, <<la, la>>, <<STAR, la>>, <<la, la, la>>}
 MCQ_Targets == {Abs(<<la>>), Abs(<<lc, la>>), OutTgt}
 MCQ_NodeData == {Records(nd) : nd \in NodesOver(MCQ_Owners, {"A", "MULTI"}, {"NS", "NSD"}, MCQ_Targets)}
 MCQ_QNames  == {Abs(w) : w \in MCQ_Owners \cup {<<>>, <<lc>>, <<lc, la>>, <<la, STAR>>, <<ln, la>>, <<lb, la, la>>}} \cup {OutName}
